@@ -196,4 +196,19 @@ pub trait Reader<'de> {
     fn as_u8_slice(&self) -> (r: &'de [u8])
         requires self.wf(),
         ensures r@ == self.data();
+
+    // deferred UTF-8 verdict of the up-front validation (simdutf8, T4): no functional contract
+    fn check_utf8_final(&self) -> (r: Result<()>)
+        requires self.wf();
+
+    // re-attach a sub-slice to its owner (Bytes/FastStr carriers are T4): the bytes are the same
+    fn slice_ref(&self, subset: &'de [u8]) -> (r: JsonSlice<'de>)
+        requires self.wf(),
+        ensures r.jbytes() == subset@;
+}
+
+#[verifier::external_body]
+pub struct JsonSlice<'a> { _p: core::marker::PhantomData<&'a ()> }
+impl<'a> JsonSlice<'a> {
+    pub uninterp spec fn jbytes(&self) -> Seq<u8>;
 }
